@@ -194,10 +194,20 @@ def parse_scilab(code, var='a'):
     _match(r'mclose\(fileid\);', ls[i], 'Scilab mclose')
     i += 1
     if i < len(ls):
-        mm = _match(r'%s = complex\(squeeze\(%s\(1((?:,:)+)\)\),squeeze\(%s\(2((?:,:)+)\)\)\);'
-                    % (re.escape(var), re.escape(var), re.escape(var)), ls[i], 'Scilab complex()')
-        if mm.group(1) != mm.group(2):
-            raise NotWellFormed('Scilab complex: different index expressions')
+        v = re.escape(var)
+        mm = re.fullmatch(r'%s = complex\(matrix\(%s\(1((?:,:)+)\), ?\[([\d, ]+)\]\),matrix\(%s\(2((?:,:)+)\), ?\[([\d, ]+)\]\)\);'
+                          % (v, v, v), ls[i])
+        if mm:
+            if mm.group(1) != mm.group(3) or mm.group(2) != mm.group(4):
+                raise NotWellFormed('Scilab complex: real and imaginary part are treated differently')
+            p['slicefix'] = 'matrix'
+            p['finaldims'] = _ints(mm.group(2), 'Scilab matrix of a part')
+        else:
+            mm = _match(r'%s = complex\(squeeze\(%s\(1((?:,:)+)\)\),squeeze\(%s\(2((?:,:)+)\)\)\);' % (v, v, v),
+                        ls[i], 'Scilab complex()')
+            if mm.group(1) != mm.group(2):
+                raise NotWellFormed('Scilab complex: different index expressions')
+            p['slicefix'] = 'squeeze'
         p['post'] = 'complex_firstaxis'
         p['ncolons'] = mm.group(1).count(':')
         i += 1
@@ -290,11 +300,12 @@ def plan_to_tla(p, pid):
     def seq(x):
         return '<<' + ', '.join(str(v) for v in x) + '>>'
     return ('[id |-> %d, lang |-> "%s", typetok |-> "%s", endtok |-> "%s", nread |-> %d, readdims |-> %s, '
-            'reshape |-> %s, post |-> "%s", skip |-> %d, offsets |-> %s, ncolons |-> %d]'
+            'reshape |-> %s, post |-> "%s", skip |-> %d, offsets |-> %s, ncolons |-> %d, slicefix |-> "%s", '
+            'finaldims |-> %s]'
             % (pid, p['lang'], p['typetok'].replace('"', ''), p['endtok'], p['nread'],
                seq(p['readdims']) if p['readdims'] is not None else '<<-1>>',
                seq(p['reshape']) if p['reshape'] is not None else '<<-1>>', p['post'], p['skip'], seq(p['offsets']),
-               p.get('ncolons', 0)))
+               p.get('ncolons', 0), p.get('slicefix', 'none'), seq(p['finaldims']) if p.get('finaldims') else '<<-1>>'))
 
 
 # =============================================================================
